@@ -428,7 +428,7 @@ C12_LOOPS = {"cellToLocalIjk.0": 7, "cellToLocalIjk.1": 7, "cellToLocalIjk.2": 7
 
 @prop("C12",
       functions=["every exported function listed in the job names; internal NEVER/ALWAYS/assert sites become proof obligations (build without NDEBUG)"],
-      bounds={"quick": "arbitrary 64-bit words / ints / int64 / doubles. Single-word integer APIs: all 2^64 words. APIs walking the digits (disks k<=1, pairs, local IJ): words whose resolution field is 0 or 1 (every other bit arbitrary, incl. invalid digits, modes, base cells 122-127). compactCells: 3 arbitrary words; uncompactCells: 2 words, <= 14 outputs; cellToChildren: one level",
+      bounds={"quick": "arbitrary 64-bit words / ints / int64 / doubles. Single-word integer APIs: all 2^64 words. APIs walking the digits (disks k<=1, pairs, local IJ): words whose resolution field is 0 (every other bit arbitrary, incl. invalid digits, modes, base cells 122-127). compactCells: 3 arbitrary words; uncompactCells: 2 words, <= 14 outputs; cellToChildren: one level",
               "thorough": "digit-walking APIs at resolution fields 0-5 and 15"},
       outside="k >= 2, larger sets, deeper children; every API that reaches trigonometry or the FP cell-boundary code (latLngToCell beyond argument validation, cellToLatLng, cellToBoundary, vertexToLatLng, areas, edge lengths, polygon functions, cellsToLinkedMultiPolygon): their integer prefixes are covered by C02/C03/C19 jobs, the FP kernels are not decided",
       assumptions=["malloc does not fail in these jobs (allocation failure is C17)", "S-TRIG stubs for greatCircleDistance*"],
@@ -442,16 +442,17 @@ def c12(tier):
     js += with_witness(ub("cheap_apis", ["-DCHEAP"], est=20, bound="all words / ints / doubles"))
     js += [ub("res0cells", ["-DRES0CELLS"], est=5, bound="-")]
     js += with_witness(ub("hierarchy", ["-DHIER"], est=20, bound="all 2^64 words x all ints"))
-    js += [ub("cellToChildPos", ["-DCHILDPOS"], est=200, mem="M", timeout=1800, bound="all 2^64 words x all ints")]
+    js += [ub("cellToChildPos", ["-DCHILDPOS"], est=200, mem="M", timeout=1800, tier="thorough", bound="all 2^64 words x all ints")]
     js += [ub("childPosToCell", ["-DPOSCHILD"], est=200, mem="M", timeout=1800, bound="all 2^64 words x all ints x all int64")]
     js += with_witness(ub("cellToChildren", ["-DCHILDREN"], us=dict(C12_LOOPS, **{"cellToChildren.0": 9, "iterStepChild.0": 18}), est=60, mem="M", bound="all words, one level"))
     for cap in (0, 1, 7, 13, 14):
         j = ub("uncompact_cap%d" % cap, ["-DUNCOMPACT", "-DCAPV=%d" % cap], us=dict(C12_LOOPS, **{"uncompactCells.0": 9, "uncompactCells.1": 4, "uncompactCellsSize.0": 4, "iterStepChild.0": 18}), est=120, mem="M", timeout=1800, bound="2 arbitrary words, <= 14 outputs, capacity %d" % cap)
-        js += with_witness(j) if cap == 7 else [j]
+        j["tier"] = "quick" if cap <= 1 else "thorough"
+        js += with_witness(j, tier=j["tier"]) if cap == 1 else [j]
     js += [ub("compact_3", ["-DCOMPACT", "-DNW=3"], unwind=17, us=dict(C12_LOOPS, **{"compactCells.0": 5, "compactCells.1": 5, "compactCells.2": 5, "compactCells.3": 5, "compactCells.4": 5, "compactCells.5": 5, "compactCells.6": 3}), est=120, mem="M", timeout=1800, bound="3 arbitrary words")]
     js += [ub("gcdist", ["-DGCDIST"], est=20, bound="all doubles (S-TRIG)")]
-    qres = (0, 1)
-    tres = (2, 3, 4, 5, 15)
+    qres = (0,)
+    tres = (1, 2, 3, 4, 5, 15)
     for r in qres + tres:
         t = "quick" if r in qres else "thorough"
         for fn, nm in enumerate(("gridDisk", "gridDiskDistances", "gridDiskDistancesSafe", "gridDiskUnsafe", "gridDiskDistancesUnsafe", "gridRingUnsafe")):
@@ -462,8 +463,8 @@ def c12(tier):
         for fn, nm in enumerate(("areNeighborCells", "cellsToDirectedEdge", "getDirectedEdgeDestination", "directedEdgeToCells", "gridDistance", "cellToLocalIj")):
             js.append(ub("%s_r%d" % (nm, r), ["-DPAIR", "-DFN=%d" % fn, "-DRES=%d" % r], unwind=max(r + 2, 4), est=150 + 60 * r, mem="M", tier=t, timeout=2400, bound="first word with resolution field %d, second arbitrary" % r))
         js.append(ub("localIjToCell_r%d" % r, ["-DIJ2CELL", "-DRES=%d" % r], unwind=r + 2, est=150 + 60 * r, mem="M", tier=t, timeout=2400, bound="origin word with resolution field %d, all int32 i,j, all modes" % r))
-    js += with_witness(ub("gridDisk_r1_k1", ["-DDISK", "-DFN=0", "-DRES=1", "-DKK=1"], unwind=4, est=100, mem="M"))[1:]
-    js += with_witness(ub("areNeighborCells_r1", ["-DPAIR", "-DFN=0", "-DRES=1"], unwind=4, est=100, mem="M"))[1:]
+    js += with_witness(ub("gridDisk_r0_k1", ["-DDISK", "-DFN=0", "-DRES=0", "-DKK=1"], unwind=4, est=100, mem="M"))[1:]
+    js += with_witness(ub("areNeighborCells_r0", ["-DPAIR", "-DFN=0", "-DRES=0"], unwind=4, est=100, mem="M"))[1:]
     return js
 
 
